@@ -131,7 +131,12 @@ class Engine(GenericConcreteEngine[Callable[..., Any]]):
                     return tree, commutator.done, commutator.messages
                 else:
                     upstream, done, messages = self.backtrack_unary(commutator.first, target, preferred)
-                    if upstream is not target:
+                    if upstream is not target or (done and commutator.second is not tree.operation):
+                        # Reapply the (possibly modified) existing operation
+                        # even if nothing changed upstream, as long as the new
+                        # operation was fully handled there (e.g. it was a
+                        # no-op): the commutator may have replaced or dropped
+                        # the existing operation.
                         result = commutator.second._finish_apply(upstream)
                     else:
                         result = tree
